@@ -11,7 +11,9 @@ REQUIRED_THEOREMS = ["token_events_exact", "no_event_unless_three_bytes", "no_ev
 RULE = ("cases = (filter_by_address, clock/fs_only of the private timer) x stimulus kind; token grammar: first byte any "
         "value 0..255 (weighted to token PIDs), 0..6 bytes, CRC good or one bit of the 16 body bits flipped, own / "
         "foreign address (address input also changed between and during packets), rx_valid gaps 0..9, truncation = "
-        "rx_active dropped after every byte position; random legal UTMI streams; random ILLEGAL streams (model "
+        "rx_active dropped after every byte position; nested = one rx_active span holding a rejected head (bad-CRC / "
+        "foreign-address token, bad PID byte, cut-short token) + 0..2 filler bytes / rx_valid gaps 0..2 + the three "
+        "bytes of a well-formed own-address token or SOF (must give no event: over-long); random legal UTMI streams; random ILLEGAL streams (model "
         "comparison only); thorough: every 11-bit payload x {OUT, IN, SETUP, PING, SOF} once each + all 256 PID bytes")
 ASSUMPTIONS = [
     "the UTMI receive history is legal (rx_valid only while rx_active and not in the cycle rx_active rises); a "
@@ -118,6 +120,41 @@ def make_stimulus(desc, rng):
             a = state["addr"]
             d11 = a | (rng.below(16) << 7)
             rows += render(token_bytes(pidb, d11), [0, 0, rng.below(2)], 1, 1, lambda: state["addr"], speed, rng)
+    elif kind == "nested":
+        # packets inside packets: ONE rx_active span = a rejected head (bad-CRC token / foreign-address token / bad
+        # PID byte, possibly cut short) + 0..2 filler bytes / rx_valid gaps + the three bytes of a well-formed token
+        # for the current address (or a well-formed SOF).  Over-long => no event whatever the tail looks like.
+        toks = TOKEN_PIDS + [usbref.PID_SOF]
+        for _ in range(110):
+            own = state["addr"]
+            hk = rng.weighted([(6, "badcrc"), (2, "foreign"), (2, "badpid"), (1, "good"), (1, "short")])
+            hp = usbref.pid_byte(rng.choice(toks))
+            hd = own | (rng.below(16) << 7)
+            head = token_bytes(hp, hd)
+            if hk == "badcrc":
+                k = rng.below(16)
+                head[1 + k // 8] ^= 1 << (k % 8)
+            elif hk == "foreign":
+                head = token_bytes(usbref.pid_byte(rng.choice(TOKEN_PIDS)), (own ^ (1 << rng.below(7))) | (rng.below(16) << 7))
+            elif hk == "badpid":
+                head[0] = rng.weighted([(2, hp ^ (1 << rng.below(8))), (1, rng.below(256))])
+                head = head[:rng.choice([1, 1, 3])]
+            elif hk == "short":
+                head = head[:rng.range(1, 2)]
+            fill = [rng.weighted([(1, rng.below(256)), (1, usbref.pid_byte(rng.choice(toks)))])
+                    for _ in range(rng.weighted([(2, 0), (3, 1), (1, 2)]))]
+            tail = token_bytes(usbref.pid_byte(rng.weighted([(4, rng.choice(TOKEN_PIDS)), (1, usbref.PID_SOF)])),
+                               own | (rng.below(16) << 7))
+            pkt = head + fill + tail
+            if rng.chance(15):
+                pkt += token_bytes(usbref.pid_byte(rng.choice(toks)), own | (rng.below(16) << 7))
+            gaps = [rng.weighted([(6, 0), (3, 1), (1, 2)]) for _ in pkt]
+            rows += render(pkt, gaps, rng.choice([1, 1, 2]), rng.choice([1, 1, 2, 4]), lambda: state["addr"], speed, rng)
+            if rng.chance(25):                       # an ordinary token in between keeps the positive side exercised
+                rows += render(token_bytes(usbref.pid_byte(rng.choice(toks)), own | (rng.below(16) << 7)), [0, 0, 0],
+                               1, rng.choice([1, 2]), lambda: state["addr"], speed, rng)
+            if rng.chance(5):
+                state["addr"] = rng.below(128)
     return rows
 
 
@@ -218,6 +255,10 @@ def gen_cases(tier, rng):
     else:
         lo = rng.below(2048 - 16)
         out.append({"filter": 1, "clk": 60, "fs_only": 0, "kind": "payloads", "lo": lo, "hi": lo + 16, "seed": rng.u64()})
+    # appended last so that the seeds of the cases above do not move
+    for filt, k in ((1, max(3, n // 2)), (0, 1)):
+        for _ in range(k):
+            out.append({"filter": filt, "clk": 60, "fs_only": 0, "kind": "nested", "seed": rng.u64()})
     return out
 
 
